@@ -278,7 +278,8 @@ macro_rules! cmp_bytes_harness {
             let (lt, eq, gt) = lex_lt_eq_gt(&l[..llen], &r);
             assert!(got == meaning(op, lt, eq, gt), "byte-string comparison is not lexicographic byte order");
             assert!(default == want_default(op, nil_false), "absent left side: false except != = nil-not-equal setting");
-            kani::cover!(got && op == OrderingOp::LessThan && llen < $rlen);
+            // nothing is smaller than the empty literal
+            kani::cover!($rlen == 0 || (got && op == OrderingOp::LessThan && llen < $rlen));
             kani::cover!(got && op == OrderingOp::GreaterThan && llen > $rlen);
             kani::cover!(got && op == OrderingOp::Equal);
             kani::cover!(!got && op == OrderingOp::LessThanEqual && llen > 0);
@@ -609,7 +610,8 @@ macro_rules! contains_dispatch_harness {
                 }
             }
             kani::cover!(got && llen == 4);
-            kani::cover!(!got && llen >= $n);
+            // the empty pattern occurs in every value
+            kani::cover!($n == 0 || (!got && llen >= $n));
             kani::cover!(got && llen == $n);
             std::mem::forget(s);
         }
